@@ -24,11 +24,12 @@ theorem c13_typechecks_full_false : ¬ c13_typechecks_full := by
   exact hne (h b hb c hc)
 
 /-- each known class is inhabited by a cell on which the two schemas really differ, with the other
-    classes absent; and the type-check class is exact -/
+    classes absent (since the C06 fixes 9a4a316 … d766956 no cell is a FromStruct finding any more: `refKnown` is empty);
+    and the type-check class is exact -/
 theorem c13_class_witnesses :
-    (∃ x ∈ zipTables, ∃ rc ∈ (refRows x.1).zip x.2, differs x rc = true ∧ dropsRule rc.2 = true ∧ refKnown rc.2 = false ∧ optionalOnRequired rc.2 = false) ∧
-    (∃ x ∈ zipTables, ∃ rc ∈ (refRows x.1).zip x.2, differs x rc = true ∧ optionalOnRequired rc.2 = true ∧ refKnown rc.2 = false ∧ dropsRule rc.2 = false) ∧
-    (∃ x ∈ zipTables, ∃ rc ∈ (refRows x.1).zip x.2, differs x rc = true ∧ refKnown rc.2 = true ∧ dropsRule rc.2 = false ∧ optionalOnRequired rc.2 = false) ∧
+    (∃ x ∈ zipTables, ∃ rc ∈ (refRows x.1).zip x.2, differs x rc = true ∧ dropsRule rc.2 = true ∧ refKnown rc.2 = false ∧ optionalOnRequired rc.2 = false ∧ specialCtorPtrNil rc.2 = false) ∧
+    (∃ x ∈ zipTables, ∃ rc ∈ (refRows x.1).zip x.2, differs x rc = true ∧ optionalOnRequired rc.2 = true ∧ refKnown rc.2 = false ∧ dropsRule rc.2 = false ∧ specialCtorPtrNil rc.2 = false) ∧
+    (∃ x ∈ zipTables, ∃ rc ∈ (refRows x.1).zip x.2, differs x rc = true ∧ specialCtorPtrNil rc.2 = true ∧ refKnown rc.2 = false ∧ dropsRule rc.2 = false ∧ optionalOnRequired rc.2 = false) ∧
     (∀ b ∈ genTable, ∀ c ∈ b, compileKnown c = true → c.status ≠ .ok) := by
   refine ⟨by decide +kernel, by decide +kernel, by decide +kernel, ?_⟩
   have h : genTable.all (fun b => b.all fun c => !compileKnown c || c.status != .ok) = true := by decide +kernel
